@@ -20,9 +20,10 @@ def _explore(src, with_phases):
     eng = Engine(src)
     holder = {}
     def may_raise(e, what):
-        if e.choose(2) == 1:
+        c = e.choose(3)
+        if c:
             e.event("callback-raised", what=what)
-            raise PyRaise("CallbackError", what)
+            raise PyRaise("CallbackError" if c == 1 else "KeyboardInterrupt", what)      # an Exception subclass / a BaseException
     def pfunc(e):
         e.event("pfunc", params=dict(holder["params"]))
         may_raise(e, "pfunc")
